@@ -322,6 +322,21 @@ def _(c, m, x):
 
 
 
+@case("kldiv with integer reference weights", exact=False)
+def _(c, m, x):
+    e, ev = lin(c, x, 2, "in")
+    r = c.fresh_real("r")
+    q = np.array([4, 2])               # an INTEGER array (counts): 1/q must not be an integer division
+    return rsome.kldiv(e, q, r), ("kldiv", ev, q, r)
+
+
+@case("kldiv with an integer scalar reference", exact=False)
+def _(c, m, x):
+    e, ev = lin(c, x, 2, "in")
+    r = c.fresh_real("r")
+    return rsome.kldiv(e, 2, r), ("kldiv", ev, np.array([2, 2]), r)
+
+
 # ---- broadcasting between the atom's argument and the other side of the comparison ------------------------------------
 
 def _bc(c, x):
